@@ -70,6 +70,7 @@ def read_back(ctx, path, nparticles, key, info, Nmaxes):
     from PyMatterSim.neighbors.read_neighbors import read_neighbors
     headers, frames = parse_file(path)
     for Nmax in Nmaxes:
+        held = []          # the caller keeps every frame's array (as Dynamics does); each must still be what it was when all are read
         with open(path) as f:
             for k, (h, rows) in enumerate(zip(headers, frames)):
                 ok, got = ctx.call(key + "/read", read_neighbors, f, nparticles[k], Nmax,
@@ -84,10 +85,15 @@ def read_back(ctx, path, nparticles, key, info, Nmaxes):
                 ctx.check("reader", good, key + "/read/" + ("truncated" if exp[:, 0].max() >= Nmax else "full"),
                           lambda: f"frame {k} Nmax={Nmax}: shape {got.shape} dtype {got.dtype} vs expected {exp.shape}; "
                                   f"first differing row {_first_diff(got, exp)}", lambda: {**info(), "Nmax": Nmax, "frame": k})
+                if good:
+                    held.append((k, got, exp))
             else:
                 rest = f.read()
                 ctx.check("eof", rest.strip() == "", key + "/read/eof",
                           f"after the last frame {len(rest)} unread characters remain (Nmax={Nmax})", info)
+        for k, got, exp in held[:-1]:
+            ctx.check("held_arrays", np.array_equal(got, exp), key + "/read/earlier_frame_changed",
+                      lambda: f"the array returned for frame {k} (Nmax={Nmax}) changed while later frames were read", lambda: {**info(), "Nmax": Nmax, "frame": k})
     return headers, frames
 
 
@@ -194,8 +200,8 @@ def one_case(ctx, rng, wd, which, inclusive=False, force_N=None):
     else:
         if force_N:
             frames = 1
-        snaps, inf, cell = gc.static_system(rng, d=d, K=K, N=force_N, frames=frames, nmin=max(3, K + 1), nmax=50 if not ctx.thorough else 90, vary_tilt=True, big=True,
-                                            poskind="gas" if force_N else None)
+        snaps, inf, cell = gc.static_system(rng, d=d, K=K, N=force_N, frames=frames, nmin=max(3, K + 1), nmax=50 if not ctx.thorough else 90, vary_tilt=True, big=True, vary_box=True,
+                                            poskind=("droplets" if rng.random() < 0.5 else "gas") if force_N else (None if rng.random() < 0.8 else "droplets"))
         ppp = gc.random_mask(rng, d)
         types = snaps.snapshots[0].particle_type
     n = inf["N"]
